@@ -4,24 +4,31 @@ from vlib import common as C
 from vlib.simlib import SIM_WRAPS
 
 MANIFEST = {
-    "text": "Lean theorems over ALL histories (any sequence of application sends, datagram arrivals, DTLS and CoAP timer expiries, "
-            "disconnects, release, each with ANY answers of the TLS library) of a transcription M of libcoap's DTLS session gating "
-            "(coap_send_pdu gate, delay queue, coap_session_connected / disconnected_lkd / free, coap_dtls_send / receive / hello / "
-            "handle_timeout, do_gnutls_handshake, layer table, ClientHello pre-filter) with GnuTLS as an oracle: no handler call and no "
-            "PDU written before the oracle reported a completed handshake (no_handler_before_hsOk, nothing_queued_written_before_"
-            "established, client_life_gated, server_life_gated), every write of a DTLS session goes through coap_dtls_send "
-            "(no_cleartext_on_dtls_session), ESTABLISHED only after the oracle's success (failure_never_establishes), cleartext CoAP "
-            "at the DTLS endpoint creates no session and no output (cleartext_coap_at_dtls_endpoint_dropped); exact step theorems for "
-            "the failure path (one NACK per queued CON, queues empty), release and the in-order flush.  M is tied to the compiled code "
-            "by exact trace equality on scenarios run with the REAL GnuTLS on both sides (virtual clock for libcoap and GnuTLS, scripted "
-            "wire with loss/duplication, cleartext injection), the oracle's answers being observed through wrapped gnutls_* calls and "
-            "replayed into M; the property is also read off the implementation's own output and the wire is scanned for anything that is "
-            "not a DTLS record; the observed handshake verdict is judged against a credential specification S.",
+    "text": "Lean theorems over ALL histories (any sequence of application sends, datagram arrivals / TCP connect completions, socket "
+            "reads and writes, DTLS and CoAP timer expiries, disconnects, release, each with ANY answers of the TLS library) of a "
+            "transcription M of libcoap's DTLS and TLS session gating (coap_send_pdu gate, delay queue, coap_session_connected / "
+            "disconnected_lkd / free, coap_dtls_send / receive / hello / handle_timeout, coap_tls_establish / write / read, "
+            "coap_session_send_csm and the CSM that opens the delay queue on a reliable transport, coap_read_session, "
+            "do_gnutls_handshake, layer table, ClientHello pre-filter) with GnuTLS as an oracle: no handler call and no PDU written "
+            "before the oracle reported a completed handshake (no_handler_before_hsOk, nothing_queued_written_before_established, "
+            "client_life_gated, server_life_gated and their tls_* instances for Proto.tls), every write of a (D)TLS session goes "
+            "through coap_dtls_send / coap_tls_write (no_cleartext_on_dtls_session), ESTABLISHED only after the oracle's success "
+            "(failure_never_establishes), cleartext CoAP at the DTLS endpoint creates no session and no output "
+            "(cleartext_coap_at_dtls_endpoint_dropped); exact step theorems for the failure path on every protocol (one NACK per "
+            "queued CON, queues empty: queued_con_one_nack_on_failure_partial, tls_queued_con_one_nack_on_failure), release and the "
+            "in-order flush (DTLS: NSTART prefix; TLS: the whole queue).  M is tied to the compiled code by exact trace equality on "
+            "scenarios run with the REAL GnuTLS on both sides: DTLS on a virtual clock and a scripted wire with loss / duplication / "
+            "cleartext injection; TLS over REAL loopback TCP sockets (server and client context in one process, one epoll event per "
+            "step, five interleavings of connect / accept / first coap_send incl. the coap_client_delay_first wait); the oracle's "
+            "answers are observed through wrapped gnutls_* calls and replayed into M; the property is also read off the "
+            "implementation's own output and everything written to the wire is scanned for bytes outside (D)TLS records; the "
+            "observed handshake verdict is judged against a credential specification S.",
     "note": "Partial: the handshake and record protection are GnuTLS's (oracle; trusted to report success only when both sides accepted "
             "the credentials).  'Exactly one NACK per queued CON' and 'delivered in order exactly once' are proved for the failure / "
-            "release / flush step exactly (_partial), not as whole-trace theorems; the python oracle checks them on every scenario.  TLS "
-            "over TCP: model of gate + layer table only, no differential run (datagram-only simulation core).  Trusted: Lean kernel (+ "
-            "propext, Classical.choice, Quot.sound), harness + wraps + oracle, the hand transcription M (checked on the scenarios run).",
+            "release / flush step exactly (_partial), not as whole-trace theorems; the python oracle checks them on every scenario.  TLS: "
+            "one CoAP message per TLS record (what libcoap writes); stream reassembly across records is C05's.  The TLS run uses real "
+            "time and real sockets: its interleavings are the five scripted ones, not arbitrary.  Trusted: Lean kernel (+ propext, "
+            "Classical.choice, Quot.sound), harnesses + wraps + oracle, the hand transcription M (checked on the scenarios run).",
     "design_ref": "DESIGN.md §4 C19, design/C19.md",
 }
 LEAN_MODULES = ["CoapVerif.Props.C19"]
@@ -30,7 +37,10 @@ REQUIRED_THEOREMS = ["no_handler_before_hsOk", "no_cleartext_on_dtls_session", "
                      "queued_con_one_nack_on_release", "queued_delivered_in_order_once_on_success_partial",
                      "send_before_established_is_held", "cleartext_coap_at_dtls_endpoint_dropped", "dgram_without_tls_ignored",
                      "nothing_queued_written_before_established", "failure_never_establishes", "client_life_gated",
-                     "server_life_gated", "mark_iff_oracle_ok"]
+                     "server_life_gated", "mark_iff_oracle_ok",
+                     "tls_no_handler_before_hsOk", "tls_nothing_written_before_hsOk", "tls_client_life_gated", "tls_server_life_gated",
+                     "tls_queued_con_one_nack_on_failure", "tls_queued_con_one_nack_on_release",
+                     "tls_queued_delivered_in_order_once_on_success", "queued_con_one_nack_on_release_any"]
 RULE = ("one line = one whole scenario with the REAL GnuTLS on both sides in one process (virtual clock for libcoap and GnuTLS, "
         "scripted wire): a server context with a DTLS endpoint configured by coap_context_set_psk2 (default key, identity table, "
         "hint, SNI table) and a client session from coap_new_client_session_psk2 (identity, key, hint callback, SNI); credential "
@@ -39,7 +49,14 @@ RULE = ("one line = one whole scenario with the REAL GnuTLS on both sides in one
         "after the session is created; per datagram deliver / drop / duplicate during and after the handshake; cleartext CoAP "
         "injected at the DTLS endpoint from the client's address and from another one and a forged cleartext response injected "
         "at the client's socket, before / during / after the handshake; early release of the session; the server's idle "
-        "timeout.  non-trivial = distinct scenario in which at least one request was queued and at least 3 datagrams were written")
+        "timeout.  `tls` lines: the same over TLS on REAL loopback TCP sockets (harness/tls.c: server context with a TLS endpoint on "
+        "127.0.0.1 port 0 and a client context in one process, coap_io_do_epoll driven one event at a time, alternating, until "
+        "nothing is ready and no written byte is unacknowledged; wall-clock watchdog): every credential configuration x five "
+        "interleavings (connect() completing at once = requests queued in HANDSHAKE state; connect in progress = the first "
+        "coap_send waits in coap_client_delay_first with both contexts or only the client running; server accepting before or "
+        "after the ClientHello is there) x queues of 0..3 CON/NON, early release; every byte written to a TCP socket must lie in "
+        "a TLS record (type 20-23, version 3.x) written from inside a gnutls_* call.  non-trivial = distinct scenario in which at "
+        "least one request was queued and at least 3 datagrams / TCP writes were made")
 TRUSTED_BASE = ["Lean 4.33 kernel; axioms allowed: propext, Classical.choice, Quot.sound (audited per theorem each run)",
                 "GnuTLS (the ORACLE): gnutls_handshake reports success only when both sides accepted the credentials; record "
                 "protection; its answers are observed per case through wrapped gnutls_* calls and replayed into M",
@@ -47,24 +64,38 @@ TRUSTED_BASE = ["Lean 4.33 kernel; axioms allowed: propext, Classical.choice, Qu
                 "datagram network, --wrap of the GnuTLS entry points libcoap uses and of coap_dtls_send / "
                 "coap_dtls_handle_timeout / coap_retransmit), harness/dtls_pipe.py, generators and the python oracle that "
                 "reads the implementation's own output",
-                "M (CoapVerif/Model/TlsGate.lean) is a hand transcription of libcoap's DTLS session gating; checked against the "
-                "compiled code only on the scenarios run"]
+                "harness/tls.c (real loopback TCP, real time; --wrap of connect (conn=now: the TCP handshake completes inside the "
+                "call; TCP_NODELAY), coap_io_process_lkd (the wait of coap_client_delay_first runs the harness' loop and is told "
+                "6 s have passed once nothing moves), coap_tls_write, coap_netif_strm_write (the sniffer), coap_free_type and the "
+                "GnuTLS entry points)",
+                "M (CoapVerif/Model/TlsGate.lean) is a hand transcription of libcoap's DTLS and TLS session gating; checked against "
+                "the compiled code only on the scenarios run"]
 ASSUMPTIONS = ["partial: the handshake itself and record protection are GnuTLS's (oracle); what is proved is libcoap's gating given "
                "the oracle's answers",
-               "partial: TLS over TCP is covered by the model's gate and layer table only (the simulation core is datagram-only; "
-               "no differential run uses TLS), SPEC DECISION D19c",
+               "partial: TLS over TCP is modelled for one CoAP message per TLS record (SPEC DECISION D19c); the TLS run explores five "
+               "scripted interleavings on real sockets, not arbitrary loss / reordering (TCP has none) and not arbitrary timing",
+               "TLS: coap_send turns every PDU of a reliable session into CON, so a request submitted as NON is NACKed like a CON on "
+               "failure (at most once: D19b'); a request coap_send refused synchronously (socket already closed) is not queued; a "
+               "request already WRITTEN on an established TLS session is not tracked (reliable transport): its fate is C05/C06's",
                "'exactly one NACK' is about requests held in the delay queue (D19a); a queued NON is dropped silently (D19b)",
                "dispatch is modelled for the messages a GET exchange produces (request, piggy-backed / NON response, empty ACK, RST)",
                "compiled Lean definitions agree with the kernel's reading of them"]
 SPEC_DECISIONS = ["D19a exactly-one-NACK is about requests queued before establishment; in-flight CONs at teardown are C06/C07's",
                   "D19b a queued Non-confirmable request is dropped silently on failure",
-                  "D19c TLS/TCP only as far as gate + layer table",
+                  "D19c TLS/TCP: one CoAP message per TLS record; reassembly across records is C05's",
+                  "D19b' on TLS a request submitted as NON has become CON inside coap_send and may be NACKed (at most once)",
+                  "D19f TLS: NACK reasons accepted for a queued request are TLS_FAILED, TLS_LAYER_FAILED and NOT_DELIVERABLE "
+                  "(coap_read_session / coap_session_mfree use the latter on reliable transports)",
                   "D19d no client session with an empty key/identity; an empty server key accepts nobody",
                   "D19e absent callbacks accept everything; an SNI table does not know names outside it"]
 RUN_KW = {"timeout": 900}
 WRAPS = SIM_WRAPS + ["coap_dtls_send", "coap_dtls_handle_timeout", "coap_retransmit", "coap_free_type", "gnutls_handshake",
                      "gnutls_record_recv", "gnutls_record_send", "gnutls_bye", "gnutls_alert_send", "gnutls_dtls_cookie_verify",
                      "gnutls_dtls_cookie_send", "gnutls_init"]
+
+
+TLS_WRAPS = ["coap_tls_write", "coap_free_type", "coap_netif_strm_write", "coap_io_process_lkd", "connect", "gnutls_handshake",
+             "gnutls_record_recv", "gnutls_record_send", "gnutls_bye", "gnutls_alert_send", "gnutls_init"]
 
 
 def harness(ctx):
@@ -75,6 +106,17 @@ def harness(ctx):
         os.unlink(out)
     h = C.build_harness("dtls", bdir, wraps=WRAPS)
     return [sys.executable, os.path.join(C.VERIF, "harness", "dtls_pipe.py"), h, C.driver_path()]
+
+
+def harness_tls(ctx):
+    """TLS over TCP: real loopback sockets (harness/tls.c), same pipe (segments replayed through M by op `tlsgate`)"""
+    h = C.build_harness("tls", C.build_libcoap(), wraps=TLS_WRAPS)
+    return [sys.executable, os.path.join(C.VERIF, "harness", "dtls_pipe.py"), h, C.driver_path()]
+
+
+HARNESS_FOR_OP = {"tls": harness_tls}
+# real sockets and real time: fewer, larger shards are not needed — every scenario costs ~15 ms of waiting for quiescence
+RUN_KW_FOR_OP = {"tls": {"shards": 16}}
 
 
 # ------------------------------------------------------------------ generator
@@ -169,9 +211,41 @@ def gen_line(rng, cred=None, q=None):
     return "dtls " + " ".join(w)
 
 
-def generate(ctx, escalate=False):
+# TLS over TCP: how the TCP connect, the server's accept and the first coap_send() interleave (harness/tls.c)
+TLS_SCHED = [[], ["conn=prog"], ["conn=prog", "acc=early"], ["conn=prog", "wait=client"], ["conn=prog", "acc=early", "wait=client"]]
+
+
+def gen_tls_line(rng, cred=None, q=None, sched=None):
+    label, words = cred if cred else rng.choice(CREDS)
+    w = list(words) + list(sched if sched is not None else rng.choice(TLS_SCHED))
+    w.append("q=" + (q if q is not None else rng.choice(QS)))
+    if rng.random() < 0.1:
+        w.append("rel=now")
+    rng.shuffle(w)
+    return "tls " + " ".join(w)
+
+
+def generate_tls(ctx, escalate=False):
     rng = ctx.rng
     out = []
+    # every credential configuration x every schedule, with a queue that has a CON in it (rotating) …
+    qs = ["C", "CN", "NC", "CCC", "NCN", "CC", "N", ""]
+    k = 0
+    for cred in CREDS:
+        for sch in TLS_SCHED:
+            for q in (QS if ctx.thorough() else [qs[k % len(qs)]]):
+                out.append("tls " + " ".join(list(cred[1]) + sch + ["q=" + q]))
+            k += 1
+    n = 4000 if ctx.thorough() else 400
+    if escalate:
+        n *= 2
+    out += [gen_tls_line(rng) for _ in range(n)]
+    return out
+
+
+def generate(ctx, escalate=False):
+    rng = ctx.rng
+    out = generate_tls(ctx, escalate)
     # every credential configuration x every queue, loss-free
     for cred in CREDS:
         for q in (QS if ctx.thorough() else ["", "C", "N", "CN", "NC", "CCC", "NCN"]):
@@ -181,6 +255,10 @@ def generate(ctx, escalate=False):
         n *= 2
     out += [gen_line(rng) for _ in range(n)]
     return out
+
+
+def is_tls(line):
+    return line.startswith("tls ")
 
 
 # ------------------------------------------------------------------ reading a canonical line
@@ -226,12 +304,16 @@ def oracle(inp, isegs, wire, expect):
     cfg = cfg_of(inp)
     q = cfg.get("q", "")
     fates = cfg.get("f", "")
+    tls = is_tls(inp)
     segs = parse_segments(isegs)
     if wire.get("cleartext") != "no":
-        return "a datagram of the DTLS session / endpoint is not a DTLS record, was written outside the TLS library or carries a queued payload in clear (wire %s)" % wire
+        return "a datagram / TCP write of the (D)TLS session / endpoint is not made of (D)TLS records, was written outside the TLS library or carries a queued payload in clear (wire %s)" % wire
+    if tls and wire.get("wd") != "0":
+        return "the scenario did not come to rest within the watchdog time (wire %s)" % wire
     hs_ok = {"c": False, "s": False, "t": False}
     ever_est = {"c": False, "s": False, "t": False}
     first_tx, nacks, rsps, reqs = [], {}, {}, []
+    refused = set()
     released = False
     created = True
     for k, sg in enumerate(segs):
@@ -241,7 +323,7 @@ def oracle(inp, isegs, wire, expect):
                 hs_ok[who] = True
             if o == "!foreign":
                 return "segment %d (%s): an oracle answer of another session" % (k, sg["ev"])
-        if sg["ev"] == "new:fail":
+        if sg["ev"] in ("new:fail", "tnew:fail"):
             created = False
         if sg["st"].startswith("st=4"):
             ever_est[who] = True
@@ -272,6 +354,8 @@ def oracle(inp, isegs, wire, expect):
             if who == "c" and o.startswith("nack:"):
                 _, reason, tok = o.split(":")
                 nacks.setdefault(tok, []).append((reason, k, released))
+            if who == "c" and o == "sendfail" and sg["ev"].startswith("tsend"):
+                refused.add(sg["ev"].split(":")[2])          # coap_send() itself said no: the request was never queued
         if who == "c" and sg["ev"] == "rel":
             released = True
     if expect in ("fail", "nosession") and (hs_ok["c"] or hs_ok["s"]):
@@ -283,6 +367,15 @@ def oracle(inp, isegs, wire, expect):
     if not created:
         return "coap_new_client_session_psk2 failed for a usable configuration"
     toks = ["%02x" % (i + 1) for i in range(len(q))]
+    if tls:
+        # CoAP over TCP has no message types: coap_send() turns every PDU into CON, so a request submitted as NON may be
+        # NACKed like a CON (at most once); a request coap_send() refused synchronously was never queued
+        for t in refused:
+            if nacks.get(t) or t in first_tx:
+                return "request %s was refused by coap_send() and still NACKed / written (%s)" % (t, nacks.get(t))
+        q = "".join(kd for t, kd in zip(toks, q) if t not in refused)
+        toks = [t for t in toks if t not in refused]
+    nack_ok = ("tls", "tlslayer", "undeliv") if tls else ("tls", "tlslayer")
     if not hs_ok["c"]:
         # never established on the client: nothing written, one NACK per queued CON, none for NON
         if ever_est["c"]:
@@ -292,11 +385,11 @@ def oracle(inp, isegs, wire, expect):
             if kind == "C":
                 if len(ns) != 1:
                     return "queued CON %s was reported by %d NACKs (%s), expected exactly one (handshake never completed)" % (t, len(ns), ns)
-                if ns[0][0] not in ("tls", "tlslayer"):
+                if ns[0][0] not in nack_ok:
                     return "queued CON %s NACKed with reason %s, expected a TLS failure" % (t, ns[0][0])
                 if ns[0][2]:
                     return "queued CON %s NACKed only after the session had been released" % t
-            elif ns:
+            elif ns and not (tls and len(ns) == 1 and not ns[0][2]):
                 return "queued NON %s was NACKed (%s)" % (t, ns)
         if reqs or rsps:
             return "handler calls without a completed handshake: %s %s" % (reqs, rsps)
@@ -312,9 +405,10 @@ def oracle(inp, isegs, wire, expect):
             # never written: the session went away first -> exactly one NACK for a CON
             if kind == "C" and len(ns) != 1:
                 return "queued CON %s was never written and reported by %d NACKs (%s)" % (t, len(ns), ns)
-            if kind == "N" and ns:
+            if kind == "N" and ns and not (tls and len(ns) == 1):
                 return "queued NON %s was NACKed (%s)" % (t, ns)
-        elif kind == "C" and not ns and not rsps.get(t):
+        elif kind == "C" and not ns and not rsps.get(t) and not (tls and "rel" in cfg):
+            # (a request WRITTEN on a reliable transport is not tracked any more: releasing the session then is silent)
             return "queued CON %s was written but has neither a response nor a NACK at the end" % t
     ded = [t for i, t in enumerate(reqs) if t not in reqs[:i]]
     if "x" not in fates and ded != sorted(ded):          # a lost datagram legitimately lets a later message overtake
@@ -357,7 +451,7 @@ def judge(ctx, c):
 def nontrivial(c):
     i = c["impl"] or ""
     m = re.search(r"wire n=(\d+)", i)
-    return bool(m) and int(m.group(1)) >= 3 and "q=" in c["input"] and "q= " not in c["input"] + " " and " c:send:" in i
+    return bool(m) and int(m.group(1)) >= 3 and "q=" in c["input"] and "q= " not in c["input"] + " " and (" c:send:" in i or " c:tsend" in i)
 
 
 def classify(c):
@@ -365,7 +459,8 @@ def classify(c):
     m = c["model"] or ""
     hs = re.search(r"hs c=(\w+) s=(\w+)", i)
     cfg = cfg_of(c["input"])
-    return "%s hs=%s q=%d%s%s%s" % (m.strip(), hs.group(1) if hs else "?", len(cfg.get("q", "")),
+    return "%s%s hs=%s q=%d%s%s%s" % ("tls " + " ".join(sorted(w for w in c["input"].split() if w.split("=")[0] in ("conn", "acc", "wait"))) + " "
+                                     if is_tls(c["input"]) else "", m.strip(), hs.group(1) if hs else "?", len(cfg.get("q", "")),
                                    " loss" if "x" in cfg.get("f", "") else "", " dup" if "2" in cfg.get("f", "") else "",
                                    " inj" if "inj" in cfg else "")
 
@@ -375,6 +470,13 @@ def search(ctx, tie_breaks, proof):
     out = []
     for c in tie_breaks[:20]:
         w = c["input"].split()[1:]
+        if is_tls(c["input"]):
+            # same credentials under every schedule and queue
+            creds = [x for x in w if x.split("=")[0] not in ("q", "conn", "acc", "wait", "rel")]
+            for sch in TLS_SCHED:
+                for q in QS:
+                    out.append("tls " + " ".join(creds + sch + ["q=" + q]))
+            continue
         for _ in range(60):
             t = [x for x in w if not x.startswith("f=")]
             f = gen_fate(rng)
@@ -382,6 +484,7 @@ def search(ctx, tie_breaks, proof):
                 t.append("f=" + f)
             out.append("dtls " + " ".join(t))
     out += [gen_line(rng) for _ in range(3000)]
+    out += [gen_tls_line(rng) for _ in range(300)]
     return out
 
 
@@ -390,6 +493,7 @@ def shrink(ctx, case):
     from vlib.runner import diff_side
     import props.C19 as me
     best = case
+    op = case["input"].split(" ", 1)[0]
     for _ in range(6):
         w = best["input"].split()[1:]
         cands = [w[:i] + w[i + 1:] for i in range(len(w))]
@@ -397,7 +501,7 @@ def shrink(ctx, case):
             if x.startswith("f=") and len(x) > 3:
                 cands.append(w[:i] + [x[:-1]] + w[i + 1:])
                 cands.append(w[:i] + ["f=" + x[2:].replace("2", "d", 1)] + w[i + 1:])
-        lines = ["dtls " + " ".join(t) for t in cands if t]
+        lines = [op + " " + " ".join(t) for t in cands if t]
         found = None
         for cc in diff_side(ctx, me, lines):
             v = judge(ctx, cc)
